@@ -70,6 +70,15 @@ for f in sorted(reach("search_ids") if "search_ids" in bodies else []):
 if not sm:
     die("c03_consts: `(limit * A).min(B)` (search candidate breadth) not found in search_ids or its helpers")
 factor, cap = int(sm.group(1)), int(sm.group(2))
+# ---- search_ids: the default page size `query.limit.unwrap_or(D)` (same call tree)
+dm_ = None
+for f in sorted(reach("search_ids")):
+    dm_ = re.search(r"\blimit\s*\.unwrap_or\(\s*(\d+)\s*\)", bodies[f])
+    if dm_:
+        break
+if not dm_:
+    die("c03_consts: `limit.unwrap_or(D)` (default search page size) not found in search_ids or its helpers")
+default_limit = int(dm_.group(1))
 
 
 def call_args(body, callee):
@@ -137,6 +146,8 @@ def maxSearchLimit : Nat := {max_limit}
 /-- `search_ids`: `top_k = (limit * searchFactor).min(searchCap)` -/
 def searchFactor : Nat := {factor}
 def searchCap : Nat := {cap}
+/-- `search_ids`: `limit = query.limit.unwrap_or(searchDefaultLimit).min(MAX_SEARCH_LIMIT)` -/
+def searchDefaultLimit : Nat := {default_limit}
 /-- the filter complexity budget of rs/anda_db/src/query.rs -/
 def maxFilterDepth : Nat := {max_depth}
 def maxFilterNodes : Nat := {max_nodes}
@@ -149,6 +160,8 @@ def compositeOperandsUnbounded : Bool := {"true" if unbounded else "false"}
 def fieldArmStopsEarly : Bool := {"true" if field_stops_early else "false"}
 
 theorem gen_maxSearchLimit_pos : 0 < maxSearchLimit := by decide
+/-- the candidate breadth is never narrower than the page: `limit ≤ top_k` for every clamped limit -/
+theorem gen_searchBreadth_covers_page : 1 ≤ searchFactor ∧ maxSearchLimit ≤ searchCap := by decide
 theorem gen_compositeOperandsUnbounded : compositeOperandsUnbounded = true := by decide
 theorem gen_fieldArmUnbounded : fieldArmStopsEarly = false := by decide
 
